@@ -33,6 +33,7 @@ CONSTANTS Targets, Tasks, AlgNames, SvNames, ValNames,  \* name alphabets (strin
           Contents,     \* value contents (positive integers)
           MetricVals,   \* SEQUENCE of the value names of the __metric__ state vector (registered by every load)
           MaxOps,       \* number of operations of a history
+          WormMasks,    \* which fields a db.tools.worm request may give: set of subsets of {"run","tgt","task","a","s","v"}
           Canon,        \* TRUE: contents are introduced in order (sound symmetry breaking: contents are only compared for equality)
           Pinned        \* transcription of the pinned tree (TRUE) or of the repaired code (FALSE)
 
@@ -53,7 +54,8 @@ MSV_VER   == 10101   \* dawgie.util.MetricStateVector: 1.1.1
 MV_VER    == 10100   \* dawgie.util.MetricValue: 1.1.0
 UNTOUCHED == -1      \* content of a value no load has written
 
-O0 == [ev |-> "", tgt |-> "", task |-> "", a |-> "", s |-> "", v |-> "", run |-> 0, c |-> 0,
+ANYRUN    == -1      \* run id not given in a worm request ("" = name not given); run id 0 is an ordinary run id
+O0 == [ev |-> "", tgt |-> "", task |-> "", tks |-> {}, a |-> "", s |-> "", v |-> "", run |-> 0, c |-> 0,
        lvl |-> "", to |-> 0, av |-> 0, sv |-> 0, vv |-> 0,
        res |-> 0, seal |-> 0, err |-> FALSE, nxt |-> 0, rep |-> {}, av1 |-> 0, sv1 |-> 0]
 
@@ -118,10 +120,16 @@ SameIdent(y, q) == /\ y.tgt = q.tgt /\ y.task = q.task /\ y.a = q.a /\ y.av = q.
                    /\ y.s = q.s /\ y.sv = q.sv /\ y.v = q.v /\ y.vv = q.vv
 RefEntry(o) == [tgt |-> o.tgt, task |-> o.task, a |-> o.a, av |-> o.av, s |-> o.s, sv |-> o.sv,
                 v |-> o.v, vv |-> o.vv, run |-> o.run, c |-> o.c]
+(* db.tools.worm: an entry (given by its NAMES n) is addressed by request o when every field that is given
+   equals its name; a field that is not given (ANYRUN / "") matches anything.  Run id 0 is a given run id. *)
+WormMatch(n, o) == /\ (o.run = ANYRUN \/ n.run = o.run) /\ (o.tgt = "" \/ n.tgt = o.tgt)
+                   /\ (o.task = "" \/ n.task = o.task)  /\ (o.a = "" \/ n.a = o.a)
+                   /\ (o.s = "" \/ n.s = o.s)           /\ (o.v = "" \/ n.v = o.v)
 RefNext(R, o) ==
     CASE o.ev = "Update" -> { y \in R : ~(SameIdent(y, o) /\ y.run = o.run) } \cup {RefEntry(o)}
       [] o.ev = "Remove" -> { y \in R : ~(/\ y.run = o.run /\ y.tgt = o.tgt /\ y.task = o.task
                                           /\ y.a = o.a /\ y.s = o.s /\ y.v = o.v) }
+      [] o.ev = "Worm" -> { y \in R : ~WormMatch(y, o) }
       [] OTHER -> R
 (* the meaning of load: the entry of the requested run, else that of the highest run of the same
    identity and target, else nothing *)
@@ -213,24 +221,48 @@ Reset(run, tgt, task, a, s) ==
     /\ ref' = RefNext(ref, out')
     /\ UNCHANGED <<tab, idx, prime>>
 
+(* util.indexed: names sorted by id (total also when ids have gaps) *)
+Indexed(T) == [i \in 1..Cardinality(T) |->
+                 LET S == { e \in T : Cardinality({ g \in T : g.id < e.id }) = i - 1 }
+                 IN IF S = {} THEN [p |-> -2, n |-> "?", v |-> -2] ELSE NameOf(CHOOSE e \in S : TRUE)]
+
 (* db.trace(["task.a"]): latest run per (non-dunder) target of the highest registered version of the algorithm;
    KeyError for an unknown task, IndexError when no algorithm matches (raised while walking the targets) *)
-Report(tk, al) ==
-    { [tn |-> t.n, run |-> MaxOf({ e.run : e \in { f \in prime : f.tg = t.id /\ f.tk = tk /\ f.al = al } })] :
+Report(task, tk, al) ==
+    { [task |-> task, tn |-> t.n, run |-> MaxOf({ e.run : e \in { f \in prime : f.tg = t.id /\ f.tk = tk /\ f.al = al } })] :
         t \in { u \in tab["target"] : \E f \in prime : f.tg = u.id /\ f.tk = tk /\ f.al = al } }
-TraceReport(task, a) ==
+ReportOf(task, a) ==
+    LET tk == IdIn(tab["task"], NOP, task, NOV)
+        cands == Sub("alg", a, {tk})
+        \* sorted(list(...), key=version)[-1]: stable sort over id order, last one
+        best == CHOOSE e \in cands : \A f \in cands : f.v < e.v \/ (f.v = e.v /\ f.id <= e.id)
+    IN Report(task, tk, best.id)
+(* one call db.trace([t.a : t in tks]) *)
+TraceReport(tks, a) ==
+    LET base == [OArgs("Trace", "", "", a, "", "", 0, 0) EXCEPT !.tks = tks] IN
     /\ Step
     /\ IF tab["target"] = {}     \* the lookups happen per target: nothing to look up, nothing to fail
-       THEN out' = OArgs("Trace", "", task, a, "", "", 0, 0)
-       ELSE IF ~Known("task", task) \/ Sub("alg", a, {IdIn(tab["task"], NOP, task, NOV)}) = {}
-       THEN out' = [OArgs("Trace", "", task, a, "", "", 0, 0) EXCEPT !.err = TRUE]
-       ELSE LET tk == IdIn(tab["task"], NOP, task, NOV)
-                cands == Sub("alg", a, {tk})
-                \* sorted(list(...), key=version)[-1]: stable sort over id order, last one
-                best == CHOOSE e \in cands : \A f \in cands : f.v < e.v \/ (f.v = e.v /\ f.id <= e.id)
-            IN out' = [OArgs("Trace", "", task, a, "", "", 0, 0) EXCEPT !.rep = Report(tk, best.id)]
+       THEN out' = base
+       ELSE IF \E t \in tks : ~Known("task", t) \/ Sub("alg", a, {IdIn(tab["task"], NOP, t, NOV)}) = {}
+       THEN out' = [base EXCEPT !.err = TRUE]
+       ELSE out' = [base EXCEPT !.rep = UNION { ReportOf(t, a) : t \in tks }]
     /\ ref' = RefNext(ref, out')
     /\ UNCHANGED <<tab, idx, prime, cur>>
+
+(* db.tools.worm.consume(run, tn, taskn, algn, svn, vn): open, db.remove with the names of every key all of whose given
+   fields match, close; the harness opens the database again (indices rebuilt) *)
+Worm(run, tgt, task, a, s, v) ==
+    LET o == OArgs("Worm", tgt, task, a, s, v, run, 0)
+        N(e) == NamesOf(tab, e)
+        hit == { e \in prime : WormMatch(N(e), o) }
+        gone == { e \in prime : \E k \in hit : /\ e.run = k.run /\ e.tg = k.tg /\ e.tk = k.tk
+                                                /\ Match(N(k).a, N(e).a) /\ Match(N(k).s, N(e).s) /\ Match(N(k).v, N(e).v) }
+    IN /\ Step
+       /\ prime' = prime \ gone
+       /\ idx' = [t \in TABLES |-> Indexed(tab[t])]
+       /\ out' = o
+       /\ ref' = RefNext(ref, out')
+       /\ UNCHANGED <<tab, cur>>
 
 (* db.next() *)
 NextRun ==
@@ -261,9 +293,6 @@ Register(task, a, s, v) ==
        /\ UNCHANGED <<prime, cur>>
 
 (* DBI().close(); DBI().open(): indices rebuilt by util.indexed (names sorted by id) *)
-Indexed(T) == [i \in 1..Cardinality(T) |->
-                 LET S == { e \in T : Cardinality({ g \in T : g.id < e.id }) = i - 1 }
-                 IN IF S = {} THEN [p |-> -2, n |-> "?", v |-> -2] ELSE NameOf(CHOOSE e \in S : TRUE)]
 Reopen ==
     /\ Step
     /\ idx' = [t \in TABLES |-> Indexed(tab[t])]
@@ -290,13 +319,19 @@ Init ==
 UsedC == { e.c : e \in prime }
 ContentChoice == IF Canon /\ Contents \ UsedC # {} THEN (Contents \cap UsedC) \cup {MinOf(Contents \ UsedC)} ELSE Contents
 
+Given(m, f, S, wild) == IF f \in m THEN S ELSE {wild}
+
 Next ==
     \/ \E tgt \in Targets, task \in Tasks, a \in AlgNames, s \in SvNames, v \in ValNames, run \in Runs :
           \/ \E c \in ContentChoice : Update(tgt, task, a, s, v, run, c)
           \/ Load(tgt, task, a, s, v, run)
           \/ RemoveEntry(run, tgt, task, a, s, v)
     \/ \E tgt \in Targets, task \in Tasks, a \in AlgNames, s \in SvNames, run \in Runs : Reset(run, tgt, task, a, s)
-    \/ \E task \in Tasks, a \in AlgNames : TraceReport(task, a)
+    \/ \E tks \in (SUBSET Tasks) \ {{}}, a \in AlgNames : TraceReport(tks, a)
+    \/ \E m \in WormMasks :
+          \E run \in Given(m, "run", Runs, ANYRUN), tgt \in Given(m, "tgt", Targets, ""), task \in Given(m, "task", Tasks, ""),
+             a \in Given(m, "a", AlgNames, ""), s \in Given(m, "s", SvNames, ""), v \in Given(m, "v", ValNames, "") :
+                Worm(run, tgt, task, a, s, v)
     \/ \E task \in Tasks, a \in AlgNames, s \in SvNames, v \in ValNames : Register(task, a, s, v)
     \/ \E tn \in Targets : AddTarget(tn)
     \/ \E lvl \in {"alg", "sv", "val"}, to \in Vers : Bump(lvl, to)
@@ -360,9 +395,17 @@ RefReport(tb, pr, task, a) ==
     IN IF cands = {} THEN {}
        ELSE LET top == MaxOf({ e.v : e \in cands })
                 E == { e \in pr : LET n == NamesOf(tb, e) IN n.task = task /\ n.a = a /\ VerOr(tb["alg"], e.al) = top }
-            IN { [tn |-> tn, run |-> MaxOf({ e.run : e \in { f \in E : NamesOf(tb, f).tgt = tn } })] :
+            IN { [task |-> task, tn |-> tn, run |-> MaxOf({ e.run : e \in { f \in E : NamesOf(tb, f).tgt = tn } })] :
                    tn \in { NamesOf(tb, e).tgt : e \in E } }
-C08_ExactTraceStep == out'.ev = "Trace" => out'.rep = RefReport(tab', prime', out'.task, out'.a)
+C08_ExactTraceStep ==
+    out'.ev = "Trace" =>
+       LET R(t) == RefReport(tab', prime', t, out'.a) IN
+       IF out'.err THEN out'.rep = {} /\ \E t \in out'.tks : R(t) = {}    \* a call may fail only if a name has nothing to report
+       ELSE out'.rep = UNION { R(t) : t \in out'.tks }
+C08_ExactWormStep ==
+    out'.ev = "Worm" =>
+       /\ prime' \subseteq prime
+       /\ prime \ prime' = { e \in prime : WormMatch(NamesOf(tab, e), out') }
 
 (* C06 LoadOK *)
 C06_LoadStep ==
@@ -377,4 +420,5 @@ C08_NextRun     == [][C08_NextRunStep]_vars
 C08_ExactRemove == [][C08_ExactRemoveStep]_vars
 C08_ExactReset  == [][C08_ExactResetStep]_vars
 C08_ExactTrace  == [][C08_ExactTraceStep]_vars
+C08_ExactWorm   == [][C08_ExactWormStep]_vars
 =============================================================================
